@@ -353,7 +353,7 @@ def inrun_oracle(run, cnt, res, ctx):
 
 
 def case_inrun(cs):
-    spec = w2.gen(cs, solvers=False, pte=False)
+    spec = w2.gen(cs, solvers=False, pte=False, cash_reserve=0.35)
     return _w2case.run_w2(cs, [inrun_oracle], spec=spec, setup=lambda: InRunCtx(spec["comm"], spec["integer"]))
 
 
